@@ -13,7 +13,11 @@ RULE = ("pairs (prefix history by several clients, probe request): the probe is 
         "be equal; probes are biased to identifier-less requests for the 14 handlers that read the ID placeholder and "
         "to protocol-version / identity switches, incl. unsupported versions and a request repeating the previous "
         "request's version; non-trivial = the probe names no identifier, or follows a request "
-        "with another version or identity")
+        "with another version or identity.  Session level: on a real KmipSession over one connection, a prefix of "
+        "frames (requests with a Maximum Response Size, other versions, batch options, state-changing requests, "
+        "refused versions, undecodable frames) and then a read-only probe frame; the probe's answer (version, items, "
+        "status / reason / message, length) must equal the answer a fresh KmipEngine + fresh session on a copy of the "
+        "database give to the probe alone")
 PROFILE = {"groups": 0.15, "restart": 0.0}
 PLACEHOLDER_OPS = ["get", "getAttributes", "getAttributeList", "activate", "revoke", "destroy", "encrypt", "decrypt",
                    "sign", "signatureVerify", "mac", "setAttribute", "modifyAttribute", "deleteAttribute"]
@@ -92,9 +96,100 @@ def nontrivial(j, o):
     return any(it.get("uid") is None and it["op"] in PLACEHOLDER_OPS for it in j["req"]["items"])
 
 
+def session_case(rnd, G, S):
+    """-> (prefix frames, probe frame, description)"""
+    v = rnd.choice([10, 11, 12, 13, 14, 20])
+    q = {"op": "query", "bid": None, "crypto": None, "functions": [1, 2, 3]}
+    reads = [q,
+             {"op": "locate", "bid": None, "crypto": None, "max": None, "offset": None, "attrs": []},
+             {"op": "get", "bid": None, "crypto": None, "uid": "1", "format": None, "compression": False, "wrap": None},
+             {"op": "get", "bid": None, "crypto": None, "uid": None, "format": None, "compression": False, "wrap": None},
+             {"op": "getAttributes", "bid": None, "crypto": None, "uid": "1", "names": []},
+             {"op": "getAttributes", "bid": None, "crypto": None, "uid": None, "names": []},
+             {"op": "getAttributeList", "bid": None, "crypto": None, "uid": "2"}]
+    if v >= 11:
+        reads.append({"op": "discoverVersions", "bid": None, "crypto": None, "versions": []})
+    prefix, desc = [], []
+    for _ in range(rnd.choice([1, 1, 2, 3])):
+        k = rnd.choice(["maxsize", "maxsize", "create", "version", "garbage", "refused", "batch", "read"])
+        pv = rnd.choice([10, 12, 13, 14, 20])
+        if k == "maxsize":
+            prefix.append(G.encode_request(G.mkreq(pv, [dict(rnd.choice(reads[:3]))], maxsize=rnd.choice([0, 64, 256, 300, 2000]))))
+        elif k == "create":
+            prefix.append(G.encode_request(G.mkreq(pv, [{"op": "create", "bid": None, "crypto": None, "otype": 2,
+                                                         "tmpl": G.aes_template(256)}])))
+        elif k == "version":
+            prefix.append(G.encode_request(G.mkreq(pv, [dict(q)])))
+        elif k == "garbage":
+            b = bytearray(G.encode_request(G.mkreq(pv, [dict(q)])))
+            b[40:48] = b"\xff" * 8
+            prefix.append(bytes(b))
+        elif k == "refused":
+            prefix.append(G.encode_request(G.mkreq(rnd.choice([9, 15, 21, 30]), [dict(q)])))
+        elif k == "batch":
+            r = G.mkreq(pv, [dict(reads[2], bid="a"), dict(reads[1], bid="b")])
+            r["bopt"] = rnd.choice([1, 2])
+            prefix.append(G.encode_request(r))
+        else:
+            prefix.append(G.encode_request(G.mkreq(pv, [dict(rnd.choice(reads[:3]))])))
+        desc.append("%s@%d" % (k, pv))
+    probe_item = dict(rnd.choice(reads))
+    if rnd.random() < 0.3:
+        pr = G.mkreq(v, [dict(probe_item, bid="p0"), dict(rnd.choice(reads), bid="p1")])
+    else:
+        pr = G.mkreq(v, [probe_item])
+    return prefix, G.encode_request(pr), desc + ["probe:%s@%d" % (probe_item["op"], v)]
+
+
+def session_part(ctx):
+    import random
+    import gen_session as G
+    import impl_session as S
+    import props.c12 as c12
+    n = 60 if ctx.tier == "quick" else 1200
+    A = S.Rig()
+    distinct = set()
+    try:
+        base = c12.setup_base(A)
+        for i in range(n):
+            rnd = random.Random(ctx.seed * 7919 + 31 * i + 5)
+            prefix, probe, desc = session_case(rnd, G, S)
+            A.restore(base)
+            resA = A.run_session([b"".join(prefix + [probe])], S.make_cert(), digests=False)
+            snap = A.snapshot()
+            B = S.Rig()
+            try:
+                B.restore(snap)
+                resB = B.run_session([probe], S.make_cert(), digests=False)
+            finally:
+                B.close()
+            rep = {"kind": "session-probe", "prefix": [f.hex() for f in prefix], "probe": probe.hex(), "what": desc}
+            if len(resA["out"]) != len(prefix) + 1 or len(resB["out"]) != 1:
+                ctx.report("c11:session-answers-missing", "%s: %d answers for %d frames (fresh: %d)"
+                           % (desc, len(resA["out"]), len(prefix) + 1, len(resB["out"])), rep)
+                continue
+            try:
+                a = S.decode_response(resA["out"][-1], A.default_version)
+                b = S.decode_response(resB["out"][0], A.default_version)
+            except Exception as e:
+                ctx.report("c11:session-answer-undecodable", "%s: %s" % (desc, e), rep)
+                continue
+            distinct.add(tuple(desc))
+            if a != b:
+                ctx.report("c11:session-probe-differs-from-fresh-session",
+                           "%s: on the used connection the probe was answered %s, on a fresh engine and connection %s"
+                           % (desc, str(a)[:250], str(b)[:250]), rep)
+    finally:
+        A.close()
+    ctx.coverage["evaluations"] = ctx.coverage.get("evaluations", 0) + n
+    ctx.coverage["distinct_nontrivial"] = ctx.coverage.get("distinct_nontrivial", 0) + len(distinct)
+    ctx.coverage["session_probe_pairs"] = n
+
+
 def run(ctx):
     engine_check.standard_run(ctx, PROFILE, MONITORS, nontrivial, RULE, n_quick=96, n_thorough=1500, length=25,
                               builder="props.c11.builder")
+    session_part(ctx)
 
 
 def search(ctx, broken):
@@ -104,6 +199,27 @@ def search(ctx, broken):
 def replay(ctx, rep):
     # replays are histories; re-run with probes on every line
     r = rep.get("replay", rep)
+    if r.get("kind") == "session-probe":
+        import impl_session as S
+        import props.c12 as c12
+        A = S.Rig()
+        try:
+            c12.setup_base(A)
+            prefix, probe = [bytes.fromhex(x) for x in r["prefix"]], bytes.fromhex(r["probe"])
+            resA = A.run_session([b"".join(prefix + [probe])], S.make_cert(), digests=False)
+            snap = A.snapshot()
+            B = S.Rig()
+            try:
+                B.restore(snap)
+                resB = B.run_session([probe], S.make_cert(), digests=False)
+            finally:
+                B.close()
+            a = S.decode_response(resA["out"][-1], A.default_version)
+            b = S.decode_response(resB["out"][0], A.default_version)
+            print("  used connection: %s\n  fresh: %s" % (a, b))
+            return a == b
+        finally:
+            A.close()
     import impl_engine
     E = impl_engine.ImplEngine()
     bad = False
